@@ -5,6 +5,8 @@ import mon_notif
 import mon_mint
 import mon_filetree
 import mon_genesis
+import mon_storage
+import os
 
 BASE_TRUST = [
     "Lean 4.33 kernel; axioms limited to propext, Classical.choice, Quot.sound (audited per theorem with #print axioms)",
@@ -109,3 +111,81 @@ PROPS = {
         "trusted_base": BASE_TRUST, "assumptions": RNS_ASSUME,
     },
 }
+
+
+# ---------------------------------------------------------------- storage properties
+
+def storage_runs(main):
+    def runs(tier, seed):
+        if tier == "quick":
+            return [{"profile": main, "args": [main, "-seed", str(seed * 10 + 1), "-hist", "4", "-steps", "300"]},
+                    {"profile": "storage", "args": ["storage", "-seed", str(seed * 10 + 2), "-hist", "3", "-steps", "300"]}]
+        out = []
+        for k in range(10):
+            out.append({"profile": main, "args": [main, "-seed", str(seed * 100 + k), "-hist", "6", "-steps", "600"]})
+        for k in range(6):
+            out.append({"profile": "storage", "args": ["storage", "-seed", str(seed * 100 + 50 + k), "-hist", "6", "-steps", "600"]})
+        return out
+    return runs
+
+
+ST_TRUST = BASE_TRUST + [
+    "oracle inputs of the storage model, recorded by the harness from the running chain: rns.Resolve results, the JKL price, json.Valid(note), the drawn next challenge, the shuffled provider list of a form, the id/escrow account of a new gauge",
+    "sdk.Dec arithmetic re-modelled exactly (Canine/Basic/Dec.lean); SHA-256 / SHA3-512 re-implemented in Lean for execution only (theorems take the hashes as parameters)",
+    "wealdtech/go-merkletree re-modelled (Canine/Storage/Merkle.lean) and compared with the chain's VerifyProof on every submitted proof",
+]
+ST_ASSUME = ["module accounts never sign; signers are canonical bech32 addresses",
+             "parameters satisfy their validators (windows > 1, chunk size >= 1, ratios >= 0)",
+             "block time is non-decreasing; third-party bank transfers into gauge or escrow accounts are outside the quantifier"]
+
+
+def st(fields=None, ops=None, opfields=None):
+    """relevance filter over driver DIFF lines of the storage model"""
+    fields = set(fields or [])
+    ops = set(ops or [])
+    opfields = opfields or {}
+
+    def rel(d):
+        if d["mod"] != "storage":
+            return False
+        fs = set(d["fields"])
+        if fs & fields:
+            return True
+        if d["op"] in ops:
+            return True
+        if d["op"] in opfields and (fs & set(opfields[d["op"]])):
+            return True
+        return False
+    return rel
+
+
+STORAGE_PROPS = {
+    "C01": dict(main="proofs", monitor=mon_storage.C01, stateful=True,
+                rel=st(fields=["verify", "success"], ops=["postProof"], opfields={"block": ["files", "files2", "proofs", "bank"], "attest": ["proofs"], "postFile": ["files", "proofs"]})),
+    "C02": dict(main="proofs", monitor=mon_storage.c02,
+                rel=st(fields=["verify", "challenge"], ops=["postProof"], opfields={"block": ["files", "files2", "proofs", "providers"]})),
+    "C03": dict(main="proofs", monitor=mon_storage.c03,
+                rel=st(opfields={"block": ["files", "files2", "proofs", "providers", "bank", "panic"]})),
+    "C04": dict(main="payments", monitor=mon_storage.c04,
+                rel=st(ops=["buyStorage"], opfields={"postFile": ["bank", "gauges", "outcome"]})),
+    "C05": dict(main="storage", monitor=mon_storage.c05, panic=True,
+                rel=st(fields=["panic"], ops=["block"], opfields={"postFile": ["outcome", "files"]})),
+    "C07": dict(main="plans", monitor=mon_storage.c07,
+                rel=st(fields=["payinfo"], ops=["postFile", "deleteFile"], opfields={"buyStorage": ["outcome"], "block": ["files", "files2"]})),
+    "C12": dict(main="payments", monitor=mon_storage.C12, stateful=True,
+                rel=st(fields=["gauges"], opfields={"block": ["bank", "panic"]})),
+    "C14": dict(main="forms", monitor=mon_storage.c14,
+                rel=st(fields=["attests", "reports"], ops=["attest", "report", "requestAttest", "requestReport"])),
+    "C15": dict(main="collateral", monitor=mon_storage.c15,
+                rel=st(fields=["collateral"], ops=["initProvider", "shutdownProvider"])),
+    "C17": dict(main="storage", monitor=mon_storage.c17,
+                rel=st(fields=["files", "files2", "proofs", "keyshape"])),
+}
+
+for _pid, _c in STORAGE_PROPS.items():
+    if os.path.exists(os.path.join(os.path.dirname(os.path.abspath(__file__)), "..", "lean", "Canine", "Props", _pid + ".lean")):
+        PROPS[_pid] = {
+            "runs": storage_runs(_c["main"]), "replay_runs": replay_runs, "monitor": _c["monitor"],
+            "stateful": _c.get("stateful", False), "panic_relevant": _c.get("panic", False),
+            "diff_relevant": _c["rel"], "trusted_base": ST_TRUST, "assumptions": ST_ASSUME,
+        }
